@@ -5,7 +5,7 @@ PROP = {
     "prop_file": "Properties/C13.v",
     "model_files": ["DocSet/Spec.v", "DocSet/Impl.v", "DocSet/Program.v", "DocSet/Exclude.v", "DocSet/ReqOpt.v", "DocSet/Sum.v",
                     "DocSet/Intersect.v", "DocSet/IntersectProofs.v", "DocSet/IntersectAdvanceProofs.v", "DocSet/Union.v", "DocSet/UnionBits.v",
-                    "DocSet/UnionProofs.v", "DocSet/UnionWitness.v", "DocSet/Disjunction.v", "DocSet/DisjunctionProofs.v", "DocSet/Cases.v"],
+                    "DocSet/UnionProofs.v", "DocSet/UnionWitness.v", "DocSet/Disjunction.v", "DocSet/DisjunctionProofs.v", "DocSet/Cases.v", "DocSet/SimpleUnion.v", "DocSet/Phrase.v"],
     "level": "proof",
     "engine": "E3-docset",
     "level_text": "Proof: a DocSet implementation is a record of the trait's methods; the contract Repr(state, remaining sorted list), with dangling states and a relational seek_danger "
@@ -14,14 +14,18 @@ PROP = {
                   "with seek_danger sequences satisfy the relational spec_check. The trait's default methods meet the contract from doc/advance alone (fuel proved adequate). "
                   "Compositional theorems, each for ANY children meeting the contract (so they nest at any depth, heterogeneous Box<dyn> children via the sum): Exclude (single/Vec exclusion set), "
                   "RequiredOptionalScorer, Intersection (go_to_first_doc, leap-frog advance with seek_danger restarts, seek, its own seek_danger; sparse count path), "
-                  "Disjunction(min-should-match k >= 1), BufferedUnionScorer (build/doc/advance/in- and out-of-horizon seek/fill_buffer/fill_bitset_block/count keep the window invariant of DESIGN s9 "
+                  "Disjunction(min-should-match k >= 1), SimpleUnion (represents sem_union, strong contract, and the alignment invariant `a child contains the current doc iff it is positioned on it` "
+                  "that `impl Postings for SimpleUnion` -- term_freq / positions -- relies on), PhraseScorer as the terms' intersection filtered by phrase_match with the positions machinery as an oracle count_of "
+                  "(constructor/advance/seek meet the contract; its own seek_danger is exact from valid states; the stored phrase_count read by score()/term_freq is proved to be the current document's count on every route: "
+                  "C13_phrase_count_path_independent), BufferedUnionScorer (build/doc/advance/in- and out-of-horizon seek/fill_buffer/fill_bitset_block/count keep the window invariant of DESIGN s9 "
                   "and represent sem_union); with seek_danger in the shape READ FROM THE CURRENT SOURCE (pinned flags: guard on the current document, re-synchronisation of the missed children in the hit branch) "
                   "the union meets the strong contract over children that never dangle (leaves, Exclude, Disjunction, every default seek_danger). "
                   "_partial: the union's contract over children that can dangle (Intersection / union children driven through seek_danger) is not proved -- that is where F133/F134 were; it is covered by the "
                   "differential runs and the witnesses (C13_union_over_dangling_child_refuted for the shape before the fix of F134, UnionWitness.W_current_source for the current one); "
-                  "Intersection's dense count path, SimpleUnion/BitSetPostingUnion, postings/range/phrase/phrase-prefix scorers are not modelled (spec layer on the implementation only); "
+                  "Intersection's dense count path, BitSetPostingUnion, postings/range/phrase-prefix scorers and the positions computation of phrases are not modelled (spec layer on the implementation only); "
+                  "SimpleUnion and PhraseScorer are not publicly constructible, so their models are not tied case by case: RegexPhraseQuery / PhraseQuery scorers are checked on the spec layer; "
                   "scores are not modelled: score path-independence is decided on the implementation side (bit-exact for single clauses and power-of-two leaf scores, relative 1e-5 for f32 sums), "
-                  "after every positioning call and along an advance walk to the end after every program. "
+                  "after every positioning call, along an advance walk to the end after every program, after `fresh scorer; seek(member)` for the members, and -- for conjunctions -- against the sum of the clauses' standalone scores. "
                   "F131-F134 are fixed in /repo (C13_union_in_union_refuted / C13_union_over_dangling_child_refuted are witnesses about the old shapes); no known finding remains for this property.",
     "level_note": "Trusted: Coq kernel + vm_compute; pin.py; the harness (leaf DocSet driven by the trait defaults, BooleanQuery trees over leaf queries, programs generated on line "
                   "against the real scorer). SIMD in-block search of postings, fast-field range and phrase scorers are exercised on the spec layer only (not modelled). "
@@ -30,6 +34,7 @@ PROP = {
     "rule": "a case = (scorer construction, call program, observations); non-trivial when the underlying list has >= 3 documents and the program >= 3 calls; "
             "scorers: leaves, direct Exclude/RequiredOptional/intersect_scorers, BooleanQuery trees (union, min-should-match, must, must_not; depth 1-3) over leaf queries, "
             "real term/boolean (incl. dense term unions over > 3 windows)/all/range/phrase/phrase-prefix (2- and 3-term, alone and inside boolean queries) queries on indexed corpora; "
+            "phrase / phrase-prefix clauses with 0..4 occurrences per document as leading and non-leading clauses of scored conjunctions; regex phrases whose regex expands to rare (< 100 docs) and frequent terms sharing documents; "
             "dense scoring unions with a scripted in-bucket seek followed by the same slots of the next windows; seek_danger sequences; every program is followed by an advance walk to the end; targets biased to doc, doc+1, members +-1, +4095/4096/4097, multiples of 4096/1024/128/64 +-1, TERMINATED-1, TERMINATED; "
             "distinct by hash of the Gallina case term",
     "trusted_base": COMMON_TB + ["harness leaf `VecDs` (sorted vector + default trait methods) stands for VecDocSet (cfg(test) only in the crate)",
